@@ -2,6 +2,7 @@ package controllers
 
 import (
 	"context"
+	"strings"
 	"time"
 
 	v1 "k8s.io/api/core/v1"
@@ -19,33 +20,53 @@ import (
 
 const c11ReservationNs = "kai-resource-reservation"
 
-// c11World: the real reconciler, real Binder, real reservation service and real gpusharing binder
-// plugin over the in-memory API store.
-func c11World(fraction bool, devices int) (*BindRequestReconciler, *fake.Store) {
-	st := fake.NewStore()
-	pod := &v1.Pod{ObjectMeta: metav1.ObjectMeta{Name: "p", Namespace: "ns", UID: "uid-p", Annotations: map[string]string{}, Labels: map[string]string{}}}
-	pod.Spec.Containers = []v1.Container{{Name: "c0"}}
-	br := &schedulingv1alpha2.BindRequest{ObjectMeta: metav1.ObjectMeta{Name: "br", Namespace: "ns"},
-		Spec: schedulingv1alpha2.BindRequestSpec{PodName: "p", SelectedNode: "n1", ReceivedResourceType: "Regular"}}
-	if fraction {
-		pod.Annotations[constants.GpuFraction] = "0.5"
-		br.Spec.ReceivedResourceType = "Fraction"
-		br.Spec.ReceivedGPU = &schedulingv1alpha2.ReceivedGPU{Count: devices, Portion: "0.50"}
-		br.Spec.SelectedGPUGroups = []string{"g0"}
-		if devices == 2 {
-			pod.Annotations[constants.GpuFractionsNumDevices] = "2"
-			br.Spec.SelectedGPUGroups = []string{"g0", "g1"}
-		}
-	}
-	st.Pods["ns/p"] = pod
-	st.Nodes["n1"] = &v1.Node{ObjectMeta: metav1.ObjectMeta{Name: "n1"}}
-	st.BindRequests["ns/br"] = br
-	cl := &fake.Client{S: st}
+type c11World struct {
+	st       *fake.Store
+	rrs      resourcereservation.Interface
+	r        *BindRequestReconciler
+	fraction bool
+	groups   []string
+}
+
+// c11Process starts a "binder process": the real reconciler, real Binder, real reservation service
+// and real gpusharing binder plugin over the API store (a crash is followed by a new process).
+func (w *c11World) c11Process() {
+	cl := &fake.Client{S: w.st}
 	rrs := resourcereservation.NewService(false, cl, "image", 40*time.Second, c11ReservationNs, "sa", "kai-resource-reservation", "scale-ns", "", nil)
 	bp := plugins.New()
 	bp.RegisterPlugin(gpusharing.New(cl, false))
 	b := binding.NewBinder(cl, rrs, bp)
-	return NewBindRequestReconciler(cl, nil, &fakeRecorder{}, &ReconcilerParams{}, b, rrs), st
+	w.rrs = rrs
+	w.r = NewBindRequestReconciler(cl, nil, &fakeRecorder{}, &ReconcilerParams{}, b, rrs)
+}
+
+// newC11World: one pending pod, one node, one BindRequest. A fractional pod looks the way admission
+// leaves it (fraction annotation, shared-gpu config map name annotation).
+func newC11World(fraction bool, devices int) *c11World {
+	st := fake.NewStore()
+	pod := &v1.Pod{ObjectMeta: metav1.ObjectMeta{Name: "p", Namespace: "ns", UID: "uid-p", Annotations: map[string]string{}, Labels: map[string]string{}}}
+	pod.Spec.Containers = []v1.Container{{Name: "c0"}}
+	pod.Status.Phase = v1.PodPending
+	br := &schedulingv1alpha2.BindRequest{ObjectMeta: metav1.ObjectMeta{Name: "br", Namespace: "ns"},
+		Spec: schedulingv1alpha2.BindRequestSpec{PodName: "p", SelectedNode: "n1", ReceivedResourceType: "Regular"}}
+	w := &c11World{st: st, fraction: fraction}
+	if fraction {
+		pod.Annotations[constants.GpuFraction] = "0.5"
+		pod.Annotations["runai/shared-gpu-configmap"] = "p-abcdefg-shared-gpu"
+		br.Spec.ReceivedResourceType = "Fraction"
+		br.Spec.ReceivedGPU = &schedulingv1alpha2.ReceivedGPU{Count: devices, Portion: "0.50"}
+		w.groups = []string{"g0"}
+		if devices == 2 {
+			pod.Annotations[constants.GpuFractionsNumDevices] = "2"
+			w.groups = []string{"g0", "g1"}
+		}
+		br.Spec.SelectedGPUGroups = w.groups
+	}
+	st.Pods["ns/p"] = pod
+	st.Nodes["n1"] = &v1.Node{ObjectMeta: metav1.ObjectMeta{Name: "n1"}}
+	st.BindRequests["ns/br"] = br
+	w.c11Process()
+	return w
 }
 
 func c11Bound(st *fake.Store) int {
@@ -58,63 +79,181 @@ func c11Bound(st *fake.Store) int {
 	return n
 }
 
-// c11Check: the all-or-nothing outcome after one (possibly faulty) reconcile followed by a
-// fault-free one.
-func c11Check(r *BindRequestReconciler, st *fake.Store, fraction bool, class string) {
-	ctx := context.Background()
+// reconcile runs one Reconcile of the current process; a crash (fake.CrashPanic escaping the
+// reconciler) ends the process and a new one is started over the same store.
+func (w *c11World) reconcile() (failed bool, crashed bool) {
+	defer func() {
+		if r := recover(); r != nil {
+			if _, ok := r.(fake.CrashPanic); !ok {
+				panic(r)
+			}
+			crashed = true
+			w.st.Crashed = false
+			w.c11Process()
+		}
+	}()
+	_, err := w.r.Reconcile(context.Background(), c12Req)
+	return err != nil, false
+}
+
+func (w *c11World) reservationPods(group string) []*v1.Pod {
+	var out []*v1.Pod
+	for _, p := range w.st.Pods {
+		if p.Namespace == c11ReservationNs && p.Labels[constants.GPUGroup] == group {
+			out = append(out, p)
+		}
+	}
+	return out
+}
+
+// podGroups: the GPU groups the stored pod is attached to by its labels.
+func (w *c11World) podGroups() []string {
+	var out []string
+	for k, v := range w.st.Pods["ns/p"].Labels {
+		if k == constants.GPUGroup {
+			out = append(out, v)
+		} else if strings.HasPrefix(k, constants.MultiGpuGroupLabelPrefix) {
+			out = append(out, v)
+		}
+	}
+	return out
+}
+
+func has(xs []string, x string) bool {
+	for _, y := range xs {
+		if y == x {
+			return true
+		}
+	}
+	return false
+}
+
+// sideObjectsInPlace: what a bound fractional pod needs to run on the devices chosen for it.
+func (w *c11World) sideObjectsInPlace(class string) {
+	if !w.fraction {
+		return
+	}
+	attached := w.podGroups()
+	var idx []string
+	for _, g := range w.groups {
+		vr.Assert(has(attached, g), "C11.bound-fraction-pod-carries-every-gpu-group-label"+class)
+		rp := w.reservationPods(g)
+		vr.Assert(len(rp) == 1, "C11.bound-fraction-pod-has-exactly-one-reservation-pod-per-group"+class)
+		if len(rp) == 1 {
+			idx = append(idx, rp[0].Annotations["run.ai/reserve_for_gpu_index"])
+		}
+	}
+	vr.Assert(len(attached) == len(w.groups), "C11.bound-fraction-pod-carries-no-other-gpu-group"+class)
+	capCM := w.st.ConfigMaps["ns/p-abcdefg-shared-gpu-0"]
+	envCM := w.st.ConfigMaps["ns/p-abcdefg-shared-gpu-0-evar"]
+	vr.Assert(capCM != nil && envCM != nil, "C11.bound-fraction-pod-has-its-config-maps"+class)
+	if capCM != nil && envCM != nil {
+		vr.Assert(envCM.Data[constants.NvidiaVisibleDevices] == strings.Join(idx, ","), "C11.visible-devices-are-the-reserved-device-indices"+class)
+		vr.Assert(capCM.Data["GPU_PORTION"] == "0.50", "C11.gpu-portion-setting-is-the-received-portion"+class)
+	}
+	vr.Assert(w.st.Pods["ns/p"].Annotations[constants.ReceivedResourceType] == "Fraction", "C11.received-resource-type-recorded"+class)
+}
+
+// c11Check: the all-or-nothing outcome after one reconcile disturbed by API failures / a crash,
+// the clean-up by the next sync, and the fault-free retry.
+func c11Check(w *c11World, class string) {
+	st := w.st
 	st.FaultsOn = true
-	_, err1 := r.Reconcile(ctx, c12Req)
-	st.FaultsOn = false
+	failed1, crashed := w.reconcile()
+	st.FaultsOn, st.CrashesOn = false, false
 	pod, br := st.Pods["ns/p"], st.BindRequests["ns/br"]
-	vr.Observe("firstErr", err1 != nil)
+	vr.Observe("firstErr", failed1)
+	vr.Observe("crashed", crashed)
 	vr.Observe("boundAfterFirst", pod.Spec.NodeName)
 	vr.Observe("phaseAfterFirst", br.Status.Phase)
+	vr.Cover(failed1 && pod.Spec.NodeName == "", "C11.cover.failed-attempt-leaves-pod-unbound"+class)
 	vr.Assert(c11Bound(st) <= 1, "C11.never-bound-twice"+class)
 	if pod.Spec.NodeName != "" {
 		vr.Assert(pod.Spec.NodeName == "n1", "C11.bound-only-to-selected-node"+class)
+		w.sideObjectsInPlace(class + "@first-attempt")
+	} else if !crashed && !st.HasFaulted("get-bindrequest") && !st.HasFaulted("patch-bindrequest-status") {
+		vr.Assert(failed1, "C11.unbound-pod-means-the-attempt-reported-an-error"+class)
+		vr.Assert(br.Status.Phase == schedulingv1alpha2.BindRequestPhaseFailed, "C11.unbound-pod-request-reported-failed"+class)
+	}
+	if vr.AnyBool("syncBeforeRetry") {
+		// the next sync removes what the failed attempt left behind: a reservation pod exists exactly
+		// for the groups some live pod is attached to
+		if err := w.rrs.Sync(context.Background()); err != nil {
+			vr.Assert(false, "C11.fault-free-sync-succeeds"+class)
+		}
+		for _, g := range []string{"g0", "g1"} {
+			n := len(w.reservationPods(g))
+			vr.Assert(n <= 1, "C11.at-most-one-reservation-pod-per-group-after-sync"+class)
+			_, podAlive := st.Pods["ns/p"]
+			attached := podAlive && has(w.podGroups(), g)
+			vr.Assert((n == 1) == attached, "C11.reservation-exists-iff-a-live-pod-is-attached-after-sync"+class)
+		}
+		if pod.Spec.NodeName == "" && !crashed && len(st.Faulted) <= 1 {
+			// with a single API failure the rollback itself is undisturbed: the failed attempt's GPU
+			// group labels are removed, and with them (by the sync above) the reservation pods
+			vr.Assert(len(w.podGroups()) == 0, "C11.failed-attempt-rollback-removes-gpu-group-labels"+class)
+		}
 	}
 	// a later fault-free attempt from whatever state was reached completes the binding
-	_, err2 := r.Reconcile(ctx, c12Req)
+	failed2, _ := w.reconcile()
 	pod, br = st.Pods["ns/p"], st.BindRequests["ns/br"]
-	vr.Observe("secondErr", err2 != nil)
+	vr.Observe("secondErr", failed2)
 	vr.Assert(c11Bound(st) <= 1, "C11.never-bound-twice-after-retry"+class)
-	vr.Assert(pod.Spec.NodeName == "n1", "C11.fault-free-retry-binds-the-pod"+class)
-	vr.Assert(br.Status.Phase == schedulingv1alpha2.BindRequestPhaseSucceeded, "C11.fault-free-retry-reports-succeeded"+class)
-	if fraction {
-		_, hasGroup := pod.Labels[constants.GPUGroup]
-		vr.Assert(hasGroup, "C11.bound-fraction-pod-carries-gpu-group"+class)
-		reservations := 0
-		for _, p := range st.Pods {
-			if p.Namespace == c11ReservationNs && p.Labels[constants.GPUGroup] == "g0" {
-				reservations++
-			}
-		}
-		vr.Assert(reservations == 1, "C11.bound-fraction-pod-has-one-reservation-pod"+class)
-	}
+	vr.Assert(pod != nil && pod.Spec.NodeName == "n1", "C11.fault-free-retry-binds-the-pod"+class)
+	vr.Assert(!failed2 && br.Status.Phase == schedulingv1alpha2.BindRequestPhaseSucceeded, "C11.fault-free-retry-reports-succeeded"+class)
+	w.sideObjectsInPlace(class + "@after-retry")
 	// a request that Succeeded is a no-op
-	w := len(st.Writes)
-	if _, err := r.Reconcile(ctx, c12Req); err != nil {
+	nw := len(st.Writes)
+	if failed3, _ := w.reconcile(); failed3 {
 		vr.Assert(false, "C11.succeeded-request-reconciles-cleanly"+class)
 	}
-	vr.Assert(len(st.Writes) == w && c11Bound(st) == 1, "C11.succeeded-request-is-a-noop"+class)
+	vr.Assert(len(st.Writes) == nw && c11Bound(st) == 1, "C11.succeeded-request-is-a-noop"+class)
 }
 
 // VerifC11_WholeGpuBind: a BindRequest for a regular (whole-GPU / CPU) pod is reconciled by the
-// real BindRequestReconciler + Binder + reservation service (sync) with at most one failing API
-// call at an arbitrary call site, then reconciled again without faults.
-// BOUND: one pod, one node; at most 1 injected API failure (quick) / 2 (thorough) among all Get/List/Patch/Create(binding) calls of the first reconcile
+// real BindRequestReconciler + Binder + reservation service (sync) with failing API calls at
+// solver-chosen call sites, or a crash before a solver-chosen call; then reconciled again without
+// faults.
+// BOUND: one pod, one node; at most 1 injected API failure or crash (quick) / 2 (thorough) among all Get/List/Patch/Create(binding) calls of the first reconcile
 func VerifC11_WholeGpuBind() {
 	vr.SetMaxFaults(vr.Bound("maxFaults", 1, 2))
-	r, st := c11World(false, 1)
-	c11Check(r, st, false, "")
+	w := newC11World(false, 1)
+	w.st.CrashesOn = true
+	c11Check(w, "")
 }
 
 // VerifC11_FractionBind: the same for a fractional pod (one shared GPU group): reservation pod
 // creation, the watch for its GPU index (annotated / error event / closed channel / timeout), GPU
-// group label, config maps, env/visible-devices settings, binding; rollback on failure.
-// BOUND: one fraction pod with 1 device, one node; at most 1 injected API failure; 4 watch outcomes
+// group label, config maps, visible-devices and portion settings, binding; rollback on failure.
+// BOUND: one fraction pod with 1 device, one node; at most 1 injected API failure or crash; 4 watch outcomes
 func VerifC11_FractionBind() {
 	vr.SetMaxFaults(1)
-	r, st := c11World(true, 1)
-	c11Check(r, st, true, "#fraction")
+	w := newC11World(true, 1)
+	w.st.CrashesOn = true
+	c11Check(w, "#fraction")
+}
+
+// VerifC11_MultiFractionBind_Thorough: a pod with two fractional devices (two GPU groups).
+// BOUND: one pod with 2 fractional devices; at most 1 injected API failure (no crash)
+func VerifC11_MultiFractionBind_Thorough() {
+	vr.SetMaxFaults(1)
+	w := newC11World(true, 2)
+	c11Check(w, "#multi-fraction")
+}
+
+// VerifC11_AlreadyBound: a request whose pod is already bound is a no-op apart from its own status.
+// BOUND: one pod already bound to the selected node or to another node; no faults
+func VerifC11_AlreadyBound() {
+	fraction := vr.AnyBool("fraction")
+	w := newC11World(fraction, 1)
+	nodes := []string{"n1", "n2"}
+	w.st.Pods["ns/p"].Spec.NodeName = nodes[vr.Choose("boundTo", 2)]
+	before := w.st.Pods["ns/p"].Spec.NodeName
+	failed, _ := w.reconcile()
+	vr.Assert(!failed, "C11.already-bound-pod-reconciles-cleanly")
+	vr.Assert(c11Bound(w.st) == 0 && w.st.Pods["ns/p"].Spec.NodeName == before, "C11.already-bound-pod-is-not-bound-again")
+	for _, wr := range w.st.Writes {
+		vr.Assert(wr == "patch-bindrequest-status" || wr == "patch-pod-status", "C11.already-bound-pod-is-a-noop")
+	}
+	vr.Assert(len(w.reservationPods("g0")) == 0 && len(w.st.ConfigMaps) == 0, "C11.already-bound-pod-creates-no-side-objects")
 }
